@@ -369,6 +369,15 @@ func (t *transpiler) charClass(node *ast.CharClassNode) {
 	var internalNodes []ast.CharClassElementNode
 	var nodesToSplit []ast.CharClassElementNode
 
+	if len(node.Elements) == 0 {
+		// Go treats a `]` that directly follows `[` or `[^` as a member of the class
+		t.Errors.AddFailure(
+			`empty char classes are not supported`,
+			t.newLocation(node.Span()),
+		)
+		return
+	}
+
 	if node.Negated {
 		t.Mode = negatedCharClassMode
 	} else {
